@@ -183,7 +183,9 @@ def gen_form(rng, light=False):
             # datum labels: more labels than the reader's initial table, then one far ahead
             nl = rng.choice([3, 20, 23, 24, 25, 47, 60])
             big = rng.choice([nl, nl + 1, nl + 15, nl + 17, 100, 200, 300, 400, 430, 600, 5000, 100000])
-            txt = "(" + " ".join("#%d=(a%d)" % (j, j) for j in range(nl)) + " #%d=(z) #%d# #0#)" % (big, big)
+            # ... sometimes with a reference to a label that was never defined (at, just above and far above the table size): a read error
+            undef = rng.choice(["", "", " #%d#" % nl, " #%d#" % (nl + 1), " #30#", " #100#", " #5000#", " #400000000#"])
+            txt = "(" + " ".join("#%d=(a%d)" % (j, j) for j in range(nl)) + undef + " #%d=(z) #%d# #0#)" % (big, big)
             # as a quoted literal (the core reader parses the program text) or through read (the library reader)
             alt = '(let ((x (read (open-input-string "%s")))) (if (pair? x) (length x) x))' % txt
             if rng.chance(2, 3):
